@@ -237,7 +237,34 @@ func runC18Conc(c *Case, out func(string)) {
 				default:
 				}
 				before := get()
-				switch rng.Intn(2) {
+				switch rng.Intn(3) {
+				case 2:
+					// Seek to a key inserted before this reader step began: the iterator must be
+					// valid and positioned exactly on that key (it exists, is visible, and no
+					// smaller key is >= the target); walking on must stay ascending
+					if before == 0 {
+						break
+					}
+					tgt := ins[rng.Intn(before)].k
+					it := mt.NewIterator()
+					it.Seek(tgt)
+					if !it.Valid() {
+						fail(fmt.Sprintf("concurrent Seek(%x) invalid although the key was inserted before the seek started", tgt))
+					} else if !bytes.Equal(it.Key(), tgt) {
+						fail(fmt.Sprintf("concurrent Seek(%x) positioned on %x", tgt, it.Key()))
+					} else {
+						pk := it.Key()
+						for n := 0; n < 5; n++ {
+							it.Next()
+							if !it.Valid() {
+								break
+							}
+							if bytes.Compare(pk, it.Key()) > 0 {
+								fail("iteration after a concurrent Seek went backwards")
+							}
+							pk = it.Key()
+						}
+					}
 				case 0:
 					it := mt.NewIterator()
 					type ks struct {
@@ -332,7 +359,7 @@ func genC18(w *bufio.Writer, seed int64, n int, tier string) {
 		nkeys := 2 + r.Intn(6)
 		nops := 3 + r.Intn(40)
 		if conc {
-			nops = 300 + r.Intn(700)
+			nops = 1500 + r.Intn(2500)
 			nkeys = 12
 		}
 		immAt := -1
@@ -357,7 +384,7 @@ func genC18(w *bufio.Writer, seed int64, n int, tier string) {
 			}
 			kk := genKey(r, nkeys)
 			if conc {
-				kk = []byte(fmt.Sprintf("k%02d", r.Intn(40)))
+				kk = []byte(fmt.Sprintf("k%03d", r.Intn(400)))
 			}
 			x := pick(r, 8, 3, 4, 1, 2)
 			if conc && x > 1 {
